@@ -124,12 +124,30 @@ def runTrace {σ μ : Type} (sc : Scen σ μ) (header : String) (lines : List St
       | none =>
         -- ops without an observation (block changes, queries): monitors still see the op
         let (mon', fs) := sc.monitor st.mon st.prevObs toks implOk implOut st.prevObs
+        -- generic C20 clause: no page exceeds min(requested or 10, 30)
+        let fs := fs ++ (match toks with
+          | "query" :: _ :: rest =>
+            let qa := args rest
+            if implOk && (qa.get "limit").isSome && (implOut.get "result").isSome then
+              let n := (implOut.list "result").length
+              let cap := min ((qa.optNat "limit").getD 10) 30
+              if n > cap then [Finding.mk "C20" "C20/page-too-long" s!"items={n} cap={cap}"] else []
+            else []
+          | _ => [])
         let fs := dedupFindings (fs.filter (fun (f : Finding) => !st.seen.contains f.sig))
         let st := { st with seen := fs.map Finding.sig ++ st.seen }
         let outs := fs.map (fun (f : Finding) => s!"T {tid} MONITOR prop={f.prop} step={k} sig={f.sig} detail={sanitize f.detail} op={r.op}")
         { st with mon := mon', out := outs.reverse ++ st.out }
       | some o =>
-        let implObs := args (tokens o)
+        let implObsAll := args (tokens o)
+        -- `pagediff` is the harness's own, model-independent C20 audit of the listings
+        let pagediff := implObsAll.str "pagediff"
+        let implObs : Args := implObsAll.filter (fun (p : String × String) => p.1 != "pagediff")
+        let st :=
+          if pagediff != "" && !st.seen.contains "C20/paging-inconsistent" then
+            { st with seen := "C20/paging-inconsistent" :: st.seen,
+                      out := s!"T {tid} MONITOR prop=C20 step={k} sig=C20/paging-inconsistent detail={sanitize pagediff} op={r.op}" :: st.out }
+          else st
         let st :=
           if st.diverged then st
           else
